@@ -726,11 +726,14 @@ class Ev:
         """ask the rule's hook about a branch condition; `a != b`, `a is not
         b` and `not c` are answered through their positive forms, so that a
         rule that knows `x == 'angle'` also knows `x != 'angle'`"""
-        if self.choose is None:
-            return None
-        c = self.choose(test, self)
+        c = self.choose(test, self) if self.choose is not None else None
         if c is not None:
             return c
+        folded = self._fold_compare(test)
+        if folded is not None:
+            return folded
+        if self.choose is None:
+            return None
         if isinstance(test, ast.UnaryOp) and isinstance(test.op, ast.Not):
             d = self.decide(test.operand)
             return None if d is None else not d
@@ -745,6 +748,29 @@ class Ev:
             d = self.choose(pos, self)
             return None if d is None else not d
         return None
+
+    def _fold_compare(self, test):
+        """a comparison of two numbers known at analysis time (a rule that
+        runs a function for surface_number = 0, 1, ...) decides itself"""
+        if not (isinstance(test, ast.Compare) and len(test.ops) == 1):
+            return None
+        sides = []
+        for x in (test.left, test.comparators[0]):
+            if isinstance(x, ast.Name):
+                v = self.env.get(x.id)
+            elif isinstance(x, ast.Constant) and isinstance(
+                    x.value, (int, float)) and not isinstance(x.value, bool):
+                v = Rat.const(x.value)
+            else:
+                return None
+            if not (isinstance(v, Rat) and v.is_const()):
+                return None
+            sides.append(v.n.constant() / v.d.constant())
+        a, b = sides
+        op = test.ops[0]
+        table = {ast.Eq: a == b, ast.NotEq: a != b, ast.Lt: a < b,
+                 ast.LtE: a <= b, ast.Gt: a > b, ast.GtE: a >= b}
+        return table.get(type(op))
 
     def arith(self, op, a, b, node=None):
         if isinstance(a, (tuple, list)) or isinstance(b, (tuple, list)):
@@ -942,7 +968,7 @@ class Ev:
             self.returned = ('raise', s)
             return True
         if isinstance(s, ast.If):
-            c = self.decide(s.test) if self.choose else None
+            c = self.decide(s.test)
             if c is None and not s.orelse and all(
                     isinstance(b, ast.Raise) for b in s.body):
                 return False        # argument-validation guard: valid input
